@@ -135,3 +135,66 @@ Theorem C19_copy_containers_shallow_refuted : exists h g c,
   exists i, In i (g_aux g') /\ In i (g_aux g) /\ c19_get (c19_upd h' i c) i <> c19_get h' i.
 Proof. exact c19_grid_copy_shallow_refuted. Qed.
 Print Assumptions C19_copy_containers_shallow_refuted.
+
+(* ---- sessions: objects, operations, ownership ---- *)
+
+(* ownership invariant (every live root well-typed, no two live roots reach a common cell) along
+   every sequence of copies, exports and mutations, when copy and export go through a deep copy *)
+Theorem C19_session_invariant : forall fl, fl_copy_deep fl = true -> fl_export_deep fl = true ->
+  forall l w, c19_allsep (fst w) (snd w) -> c19_allsep (fst (c19_srun fl w l)) (snd (c19_srun fl w l)).
+Proof. exact c19_session_inv. Qed.
+Print Assumptions C19_session_invariant.
+
+(* hence at every point of every session one more operation leaves every other root — grid or
+   exported dataset — reporting what it reported before (caller edits may be in-place writes) *)
+Theorem C19_session : forall fl, fl_copy_deep fl = true -> fl_export_deep fl = true ->
+  forall l w s, c19_allsep (fst w) (snd w) ->
+  let w1 := c19_srun fl w l in
+  forall j b, nth_error (snd w1) j = Some b -> match s with C19SOp k _ => j <> k | _ => True end ->
+              c19_obs (fst (c19_sstep fl w1 s)) b = c19_obs (fst w1) b.
+Proof. exact c19_session_thm. Qed.
+Print Assumptions C19_session.
+
+(* the copy points the model relies on, as found in the current source by the translator *)
+Theorem C19_flags_current :
+  c19_f_pc_copies = true /\ c19_f_std_copies = true /\ c19_f_init_copies = true /\
+  c19_f_copy_deep = true /\ c19_f_export_deep = true /\ c19_f_scrip_copies = true /\
+  c19_f_poly_returns_copy = true /\ c19_f_line_returns_copy = true /\ c19_f_gdf_returns_copy = false.
+Proof. exact c19_flags_current. Qed.
+Print Assumptions C19_flags_current.
+
+(* ... instantiated with those flags *)
+Theorem C19_session_current : forall l w s, c19_allsep (fst w) (snd w) ->
+  let w1 := c19_srun c19_sflags_current w l in
+  forall j b, nth_error (snd w1) j = Some b -> match s with C19SOp k _ => j <> k | _ => True end ->
+              c19_obs (fst (c19_sstep c19_sflags_current w1 s)) b = c19_obs (fst w1) b.
+Proof. exact c19_session_current. Qed.
+Print Assumptions C19_session_current.
+
+(* with either flag off there is a session in which a mutation through one root shows on another *)
+Theorem C19_session_shallow_refuted :
+  (exists w l j b, c19_allsep (fst w) (snd w) /\
+     let w1 := c19_srun {| fl_copy_deep := false; fl_export_deep := true |} w l in
+     nth_error (snd w1) j = Some b /\ j <> 0%nat /\
+     c19_obs (fst (c19_sstep {| fl_copy_deep := false; fl_export_deep := true |} w1 (C19SOp 0 (C19SetAttr (-1) 7 7)))) b
+       <> c19_obs (fst w1) b) /\
+  (exists w l j b, c19_allsep (fst w) (snd w) /\
+     let w1 := c19_srun {| fl_copy_deep := true; fl_export_deep := false |} w l in
+     nth_error (snd w1) j = Some b /\ j <> 0%nat /\
+     c19_obs (fst (c19_sstep {| fl_copy_deep := true; fl_export_deep := false |} w1 (C19SOp 0 (C19SetAttr (-1) 7 7)))) b
+       <> c19_obs (fst w1) b).
+Proof. exact c19_session_shallow_refuted. Qed.
+Print Assumptions C19_session_shallow_refuted.
+
+(* geometry exports under the flags of the source: PolyCollection and LineCollection are never the
+   cached object; Grid.to_geodataframe hands out the cached frame — the known finding *)
+Theorem C19_export_geo_current : forall h cached c c',
+  c19_get h cached = Some c ->
+  (let '(h', e) := c19_export_geo c19_f_poly_returns_copy h cached in
+   e <> cached /\ c19_get (c19_upd h' e c') cached = Some c) /\
+  (let '(h', e) := c19_export_geo c19_f_line_returns_copy h cached in
+   e <> cached /\ c19_get (c19_upd h' e c') cached = Some c) /\
+  (let '(h', e) := c19_export_geo c19_f_gdf_returns_copy h cached in
+   e = cached /\ c19_get (c19_upd h' e c') cached = Some c').
+Proof. exact c19_export_geo_current. Qed.
+Print Assumptions C19_export_geo_current.
